@@ -317,6 +317,17 @@ def coq_multi_case(nh, ops, outs):
 # generators shared by the hexary properties (DESIGN 4.4)
 
 ALPHA = [0x00, 0x01, 0x10, 0x11, 0x12]
+# alternative 5-symbol alphabets: high nibbles (branch slots 14 / 15, the last child) and the middle of the range
+ALPHABETS = [ALPHA, ALPHA, [0x00, 0x0f, 0xf0, 0xff, 0xfe], [0x7f, 0x80, 0x8f, 0xf8, 0x08]]
+CUR_ALPHA = ALPHA
+
+
+def pick_alphabet(rng):
+    """choose the byte alphabet of the short keys for the case being generated"""
+    global CUR_ALPHA
+    CUR_ALPHA = rng.choice(ALPHABETS)
+    return CUR_ALPHA
+
 VALBYTES = [0x61, 0x62, 0x00]
 VLENS = [1, 1, 5, 20, 25, 26, 27, 28, 29, 30, 31, 32, 33, 34, 35, 40, 55, 56, 57, 64]
 
@@ -325,7 +336,7 @@ def gen_key(rng, long_pool=None):
     if long_pool and rng.random() < 0.5:
         return rng.choice(long_pool)
     n = rng.choice([0, 1, 1, 2, 2, 2, 3, 3, 4])
-    return bytes(rng.choice(ALPHA) for _ in range(n))
+    return bytes(rng.choice(CUR_ALPHA) for _ in range(n))
 
 
 def gen_value(rng):
@@ -358,8 +369,17 @@ def related_keys(keys):
 def gen_write(rng, keys, long_pool=None):
     r = rng.random()
     syn = rng.choice(["meth", "item"])
-    if r < 0.6 or not keys:
+    if r < 0.52 or not keys:
         return ("set", gen_key(rng, long_pool), gen_value(rng), syn)
+    if r < 0.6:
+        # overwrite a stored key with a DIFFERENT value of the SAME length (the node keeps its size and shape; only an
+        # implementation that really rewrites it - and every ancestor - gets this right)
+        k = rng.choice(sorted(keys))
+        old = getattr(keys, "mapping", {}).get(k, b"")
+        if old:
+            nb = rng.choice([x for x in VALBYTES + [0x63] if x != old[0]])
+            return ("set", k, bytes([nb]) * len(old), syn)
+        return ("set", k, gen_value(rng), syn)
     if r < 0.7:
         return ("set", rng.choice(sorted(keys)), b"", syn)        # set-to-empty
     if r < 0.8:
@@ -367,8 +387,38 @@ def gen_write(rng, keys, long_pool=None):
     return ("del", rng.choice(sorted(keys)), syn)
 
 
+def flatten_writes(ops):
+    """the set / del operations that take effect, in order: a committed (nested) batch contributes its own effective
+    writes, an aborted one nothing"""
+    out = []
+    for o in ops:
+        if o[0] in ("set", "del"):
+            out.append(o)
+        elif o[0] == "batch" and o[2] is None:
+            out.extend(flatten_writes(o[1]))
+    return out
+
+
+def nest_some(rng, inner, p=0.3):
+    """with probability p, wrap a slice of a batch body into a nested squash_changes block (committed, or aborted at a random
+    position); returns the new body"""
+    ws = [i for i, o in enumerate(inner) if o[0] in ("set", "del")]
+    if len(ws) < 1 or rng.random() >= p:
+        return inner
+    a = rng.choice(ws)
+    b = rng.randint(a + 1, len(inner))
+    body = list(inner[a:b])
+    ab = None if rng.random() < 0.65 else rng.randint(0, len(body))
+    return list(inner[:a]) + [("batch", body, ab)] + list(inner[b:])
+
+
 def apply_model(m, op):
     """the dict oracle"""
+    if op[0] == "batch":
+        if op[2] is None:
+            for o in op[1]:
+                apply_model(m, o)
+        return
     if op[0] == "set":
         if op[2] == b"":
             m.pop(op[1], None)
@@ -458,10 +508,37 @@ def gen_shared_family(rng, third=0.8):
     return ops
 
 
+def gen_fan(rng, tiny=False):
+    """fan family: a branch with ALL 16 children (and sometimes a value of its own), then most of them deleted again, so that
+    every slot index - the last one included - is met as a child, as the survivor of a collapse, and as a sibling"""
+    ops = []
+    p = bytes(rng.choice(CUR_ALPHA) for _ in range(rng.choice([0, 1, 1, 2])))
+    low = rng.randrange(16)
+    fan = [p + bytes([(x << 4) | low]) for x in range(16)]
+    rng.shuffle(fan)
+    for k in fan:
+        ops.append(("set", k, bytes([rng.choice(VALBYTES)]) * (rng.randint(1, 3) if tiny else rng.choice(VLENS)), rng.choice(["meth", "item"])))
+    if p and rng.random() < 0.5:
+        ops.append(("set", p, gen_value(rng) if not tiny else b"a", "meth"))
+    keep = set(rng.sample(fan, rng.choice([1, 1, 2, 3, 15])))
+    if rng.random() < 0.5:
+        keep.add(p + bytes([0xF0 | low]))
+    for k in fan:
+        if k not in keep:
+            ops.append(("del", k, rng.choice(["meth", "item"])))
+    return ops
+
+
 def gen_writes(rng, n, long_pool=None, tiny=False):
     """n writes and the resulting mapping (tiny: 1..3-byte values only, so that nodes are embedded)"""
     m, ops = {}, []
     shadow = None
+    pick_alphabet(rng)
+    if rng.random() < 0.1:
+        ops = gen_fan(rng, tiny)
+        for w in ops:
+            apply_model(m, w)
+        n = max(1, n // 2)
     if not tiny and rng.random() < 0.15:
         # this history also stores VALUES that are hashes of nodes present in the same database (the current root, or any
         # stored node): a value is data and must never be followed as a reference
